@@ -153,16 +153,28 @@ type raftMonitor struct {
 	leaders   map[string]uint64         // group/term -> leader node
 	durable   map[string]*durableSample // node/group -> last sample
 	viol      func(sig, format string, a ...interface{})
-	injected  map[int]bool // nodes with injected disk errors (fatal is a legal reaction)
+	injected  map[int]bool   // nodes with injected disk errors (fatal is a legal reaction)
+	epoch     map[string]int // node/group -> how often the product deleted / recreated the group's store
 }
 
 func newRaftMonitor(s *Sim, viol func(sig, format string, a ...interface{})) *raftMonitor {
 	m := &raftMonitor{s: s, applied: map[string]uint64{}, appliedBy: map[string]string{}, lastIdx: map[string]uint64{}, leaders: map[string]uint64{},
-		durable: map[string]*durableSample{}, viol: viol, injected: map[int]bool{}}
+		durable: map[string]*durableSample{}, viol: viol, injected: map[int]bool{}, epoch: map[string]int{}}
 	s.onApply = m.onApply
 	s.onRaftMsg = m.onRaftMsg
 	s.onIO = m.onIO
 	return m
+}
+
+// forgetDisk: the node's disk was replaced by an empty one (a removed machine that is
+// brought back blank): nothing durable is expected of it any more.
+func (m *raftMonitor) forgetDisk(n *simNode) {
+	prefix := fmt.Sprintf("%d/", n.id)
+	for k := range m.durable {
+		if strings.HasPrefix(k, prefix) {
+			delete(m.durable, k)
+		}
+	}
 }
 
 func gname(s *Sim, g uuid.UUID) string {
@@ -262,7 +274,13 @@ func (m *raftMonitor) onIO(n *simNode, group uuid.UUID, op string, before bool) 
 	if before || n.parts == nil {
 		if op == "reset" && before {
 			// the product deletes / recreates the group's store: expectations start over
-			delete(m.durable, fmt.Sprintf("%d/%s", n.id, group))
+			// (queued behind the apply records of the old instance that are still in the mailbox)
+			dk, lk := fmt.Sprintf("%d/%s", n.id, group), fmt.Sprintf("%d/%d/%s", n.id, n.inc, group)
+			m.epoch[dk]++ // samples requested before this instant must not read the new store
+			m.s.post(func() {
+				delete(m.durable, dk)
+				delete(m.lastIdx, lk)
+			})
 		}
 		return
 	}
@@ -270,8 +288,10 @@ func (m *raftMonitor) onIO(n *simNode, group uuid.UUID, op string, before bool) 
 		return
 	}
 	inc := n.inc
+	ek := fmt.Sprintf("%d/%s", n.id, group)
+	epoch := m.epoch[ek]
 	m.s.post(func() {
-		if !n.alive || n.inc != inc {
+		if !n.alive || n.inc != inc || m.epoch[ek] != epoch {
 			return
 		}
 		m.sample(n, group, op)
@@ -301,6 +321,28 @@ func (m *raftMonitor) sample(n *simNode, group uuid.UUID, why string) {
 				}
 			}
 		}
+	}
+	// Raft never produces a log whose terms decrease with the index. A durable log that
+	// does holds the remains of a suffix that a later leader replaced: the replica would
+	// come back from a restart with entries it had already given up.
+	if strings.Contains(why, "entries") && d.last > d.first {
+		lo := d.first
+		if d.last > 12 && d.last-12 > lo {
+			lo = d.last - 12
+		}
+		var pt uint64
+		for i := lo; i <= d.last; i++ {
+			t, err := w.Term(i)
+			if err != nil {
+				break
+			}
+			if t < pt {
+				m.viol("durable-log/terms-decrease/"+gname(m.s, group), "group %s on n%d: the durable log has term %d at index %d after term %d at index %d (%s)", shortG(group), n.idx, t, i, pt, i-1, why)
+				break
+			}
+			pt = t
+		}
+		m.s.out.Stat("durable_log_tails_checked", 1)
 	}
 	if prev != nil {
 		m.s.out.Stat("durable_state_samples_compared", 1)
